@@ -205,14 +205,76 @@ structure Status where
   Code : Int := 0
   Message : Str := []
   deriving Repr, BEq, DecidableEq
+def Status.new : Status := {}
 def Status.Code! (s : Status) : M Int := if s.isNil then nilPanic else pure s.Code
 def Status.GetCode (s : Status) : Int := if s.isNil then 0 else s.Code
+
+/-! envoy core/type: header value options, HTTP status; the denied and the OK HTTP responses; the oneof `http_response` -/
+
+structure HeaderValue where
+  isNil : Bool := false
+  Key : Str := []
+  Value : Str := []
+  deriving Repr, BEq, DecidableEq
+def HeaderValue.GetKey (h : HeaderValue) : Str := if h.isNil then [] else h.Key
+def HeaderValue.GetValue (h : HeaderValue) : Str := if h.isNil then [] else h.Value
+def HeaderValue.new : HeaderValue := {}
+
+structure HeaderValueOption where
+  isNil : Bool := false
+  Header : HeaderValue := { isNil := true }
+  deriving Repr, BEq, DecidableEq
+def HeaderValueOption.GetHeader (h : HeaderValueOption) : HeaderValue := if h.isNil then { isNil := true } else h.Header
+def HeaderValueOption.new : HeaderValueOption := {}
+
+structure HttpStatus where
+  isNil : Bool := false
+  Code : Int := 0
+  deriving Repr, BEq, DecidableEq
+def HttpStatus.GetCode (h : HttpStatus) : Int := if h.isNil then 0 else h.Code
+def HttpStatus.new : HttpStatus := {}
+
+structure DeniedHttpResponse where
+  isNil : Bool := false
+  Status : HttpStatus := { isNil := true }
+  Headers : List HeaderValueOption := []
+  Body : Str := []
+  deriving Repr, BEq, DecidableEq
+def DeniedHttpResponse.Headers! (d : DeniedHttpResponse) : M (List HeaderValueOption) := if d.isNil then nilPanic else pure d.Headers
+def DeniedHttpResponse.new : DeniedHttpResponse := {}
+
+structure OkHttpResponse where
+  isNil : Bool := false
+  Headers : List HeaderValueOption := []
+  deriving Repr, BEq, DecidableEq
+def OkHttpResponse.Headers! (d : OkHttpResponse) : M (List HeaderValueOption) := if d.isNil then nilPanic else pure d.Headers
+def OkHttpResponse.new : OkHttpResponse := {}
+
+structure CheckResponse_DeniedResponse where
+  DeniedResponse : DeniedHttpResponse
+  deriving Repr, BEq, DecidableEq
+structure CheckResponse_OkResponse where
+  OkResponse : OkHttpResponse
+  deriving Repr, BEq, DecidableEq
+
+/-- the interface value held by the oneof field `http_response` -/
+inductive CheckResponse_HttpResponse where
+  | nil
+  | DeniedResponse (v : CheckResponse_DeniedResponse)
+  | OkResponse (v : CheckResponse_OkResponse)
+  deriving Repr, BEq, DecidableEq
+instance : Coe CheckResponse_DeniedResponse CheckResponse_HttpResponse := ⟨.DeniedResponse⟩
+instance : Coe CheckResponse_OkResponse CheckResponse_HttpResponse := ⟨.OkResponse⟩
 
 structure CheckResponse where
   isNil : Bool := false
   Status : Pb.Status := { isNil := true }
-  http : HttpResp := .none
+  HttpResponse : CheckResponse_HttpResponse := .nil
   deriving Repr, BEq, DecidableEq
+def CheckResponse.GetOkResponse (r : CheckResponse) : OkHttpResponse :=
+  if r.isNil then { isNil := true } else match r.HttpResponse with | .OkResponse v => v.OkResponse | _ => { isNil := true }
+def CheckResponse.GetDeniedResponse (r : CheckResponse) : DeniedHttpResponse :=
+  if r.isNil then { isNil := true } else match r.HttpResponse with | .DeniedResponse v => v.DeniedResponse | _ => { isNil := true }
 def CheckResponse.Status! (r : CheckResponse) : M Pb.Status := if r.isNil then nilPanic else pure r.Status
 def CheckResponse.GetStatus (r : CheckResponse) : Pb.Status := if r.isNil then { isNil := true } else r.Status
 /-- `&envoy.CheckResponse{}` -/
